@@ -6,7 +6,7 @@
    The states are abstract (Layer A); that each of them is reached by complete pieces of list surgery —
    never in the middle of one — is the structure of panic_points itself: callbacks sit only between the
    primitives whose pointer-level correctness is C07 (B/RepB.v, B/ReallocB.v). *)
-Require Import LruV.A.PanicProps LruV.B.OpsProps.
+Require Import LruV.A.PanicProps LruV.B.OpsProps LruV.B.StepB LruV.B.RefineLemmas LruV.B.RefineB LruV.B.PanicB.
 
 (* For every operation, every state satisfying the invariant, every oracle and EVERY callback point:
    current_size equals the sum of the recorded sizes and is within the limit, keys are distinct, every
@@ -53,8 +53,17 @@ Example C16_example :
     = [3; 3; 3; 3; 3; 3; 2; 2]%nat.
 Proof. cbv zeta. split; vm_compute; reflexivity. Qed.
 
+(* pointer level, whole operations: the callback points of every operation listed with the heap the pointer-level
+   operation (B/StepB.v) has reached when it makes the call agree point by point with the abstract list — same kind of
+   callback, the heap satisfies the representation invariant, its abstraction is the abstract unwinder state. A panic at
+   any callback of any operation therefore finds a coherent linked structure of which C16_all_points speaks. *)
+Theorem C16_pointer_level_points : forall E b p oB, RIg (bg b) -> KU b ->
+  Forall2 (fun x y => bk x = pk y /\ RIg (bg (bst x)) /\ absB (bst x) = pst y) (bpoints E b p oB) (panic_points E (absB b) p (ob oB)).
+Proof. exact bpoints_match. Qed.
+
 Print Assumptions C16_all_points.
 Print Assumptions C16_closure.
 Print Assumptions C16_predicate.
 Print Assumptions C16_clone.
 Print Assumptions C16_between_primitives.
+Print Assumptions C16_pointer_level_points.
